@@ -25,9 +25,10 @@ def handle (j : Json) : Except String Json := do
     | .ok Json.null => pure none
     | .ok m => do pure (some (← getBoolList m))
     | .error _ => pure none
-  match nodesWithId nodes labels missing with
+  match nodesWithId (nodes.map toInt64) (labels.map toInt64) missing with
   | none => return Json.mkObj [("exc", "IndexError")]
   | some nl =>
+    let edges := edges.map fun e => (toInt64 e.1, toInt64 e.2)
     let errs := trackletErrors nl edges
     match errs.find? (fun p => match p.2 with | .exc _ => true | _ => false) with
     | some (_, .exc n) => return Json.mkObj [("exc", n)]
